@@ -8,13 +8,13 @@ require (
 	github.com/benoitkugler/textprocessing v0.0.3
 	github.com/benoitkugler/webrender v0.0.0
 	github.com/go-text/typesetting v0.2.1
+	golang.org/x/net v0.36.0
 )
 
 require (
 	github.com/benoitkugler/pstokenizer v1.0.1 // indirect
 	github.com/benoitkugler/textlayout v0.3.1 // indirect
 	golang.org/x/image v0.23.0 // indirect
-	golang.org/x/net v0.36.0 // indirect
 	golang.org/x/text v0.22.0 // indirect
 )
 
